@@ -19,6 +19,7 @@ REVIEWED_RECURSION = {
 
 
 def run(db, chk):
+    no_relock_rule(db, chk)
     roots = [db.one(p).key for p in ENTRIES]
     scope = set()
     for c in SCOPE:
@@ -91,3 +92,37 @@ def run(db, chk):
             tr = all((db.fns[n].trait_item is not None) for n in comp)
             chk.ob("recursion-bounded", " <-> ".join(sorted(x.split("::")[-1] for x in comp))[:120], tr,
                    "mutual recursion among %d functions" % len(comp), "%s:%d" % (f.file, f.line), key="recursion|" + "|".join(sorted(comp))[:300])
+
+
+GUARD = re.compile(r"^(lock_api::rwlock::RwLock(Read|Write|UpgradableRead)Guard<|lock_api::mutex::MutexGuard<|core::cell::Ref(Mut)?<|std::sync::\w*Guard<|parking_lot::\w*Guard<)")
+ACQUIRE = r"threading::_impl::get_(ref|mut)$|RwLock<.*>::(read|write)$|::lock$|RefCell<.*>::borrow(_mut)?$|::get_ref$|::get_mut$"
+
+
+def no_relock_rule(db, chk):
+    """prepare() reads the packed-refs snapshot through gix_fs::SharedFileSnapshotMut (a RwLock, a RefCell without threads).  Asking that lock
+    for a second guard while the first is still alive blocks the calling thread on itself for ever (parking_lot is not re-entrant; a RefCell
+    panics): in gix_fs::snapshot every guard has died - MIR drop of the local, or the local moved into mem::drop - on every path from its
+    acquisition to the next acquisition."""
+    fns = [f for f in db.by_crate["gix_fs"] if f.kind != "promoted" and "::snapshot::" in f.name]
+    chk.floor("functions of gix_fs::snapshot", len(fns), 4)
+    n = 0
+    for f in fns:
+        acq = [c for c in f.calls() if c.is_(ACQUIRE) and c.dest and len(c.dest) == 1 and GUARD.search(f.locals[c.dest[0]])]
+        if not acq:
+            continue
+        for a in acq:
+            n += 1
+            g = a.dest[0]
+            kills = {b for b in range(len(f.blocks)) if f.term(b)[0] == "drop" and f.term(b)[1] == [g]}
+            # moved out: `_x = move g` and _x handed to a call (mem::drop) - the guard dies in that call
+            movers = {pl[0] for bi, si, pl, rv, ln, mc in f.assigns() if len(pl) == 1 and rv[0] == "use" and rv[1].get("p") == [g] and rv[1].get("mv")}
+            for c in f.calls():
+                if any(x.get("p") in ([g], ) and x.get("mv") for x in c.args) or any("p" in x and x["p"][0] in movers and len(x["p"]) == 1 and x.get("mv") for x in c.args):
+                    if c.is_(r"mem::drop$"):
+                        kills.add(c.block)
+            live = f.reach_from(a.target, avoid=kills) if a.target is not None else set()
+            again = [c for c in acq if c is not a and c.block in live]
+            chk.ob("no-second-guard-while-one-is-held", "%s %s@%d" % (f.name.split("::")[-1], a.name.split("::")[-1], a.line), not again,
+                   "the lock is requested again at line %s while the guard taken here can still be alive: the thread waits for itself (prepare() never returns once packed-refs changed on disk)" % [c.line for c in again],
+                   a.where(), key="relock|%s" % f.name.split("::")[-1])
+    chk.floor("guard acquisitions in gix_fs::snapshot", n, 4)
